@@ -133,12 +133,9 @@ func (e *engine) dispatch(worker int, raw []byte) error {
 		return e.checkDiffLine(worker, raw)
 	case "equal":
 		return e.checkEqualLine(worker, raw)
-	case "word":
-		return e.checkWordLine(worker, raw)
-	case "enc":
-		return e.checkEncLine(worker, raw)
-	case "decode":
-		return e.checkDecodeLine(worker, raw)
+	}
+	if f, ok := v5Families[fam]; ok {
+		return f(e, worker, raw)
 	}
 	return fmt.Errorf("unknown family %q", fam)
 }
